@@ -77,6 +77,9 @@ def showRes : Except Err Dict → String
 def tableOf : String → Option (List Opt)
   | "ape" => some Gen.apeOptions | "rpe" => some Gen.rpeOptions | "traj" => some Gen.trajOptions | _ => none
 
+def exclOf : String → List (List String)
+  | "ape" => Gen.apeExclusive | "rpe" => Gen.rpeExclusive | "traj" => Gen.trajExclusive | _ => []
+
 /-- ops:
   `set <dict> <strs>` · `resetsub <dict> <strs>` · `resetall` · `merge <soft> <dict> <dict>` · `upgrade <dict>`
   `lock <dict> <hexkey> <value>` · `generate <strs>` · `generateold <strs>`
@@ -130,7 +133,7 @@ def handle (op : String) (args : List String) : Option String :=
       | app :: rest => do
           let t ← tableOf app
           let (ss, _) ← readStrs rest
-          match argparseLong t ss (defaultsOf t) with
+          match argparseLong t ss (defaultsOf t) (exclOf app) with
           | some d => some (showDict d)
           | none => some "E_ARGS"
       | [] => none
